@@ -27,7 +27,7 @@ from elementpath.helpers import numeric_equal, numeric_not_equal, \
     node_position, get_double
 from elementpath.namespaces import get_namespace, get_expanded_name
 from elementpath.datatypes import UntypedAtomic, QName, AnyURI, \
-    Duration, Integer, DoubleProxy10
+    Duration, Integer, DoubleProxy10, DateTime
 from elementpath.xpath_nodes import ElementNode, DocumentNode, XPathNode, AttributeNode, \
     NamespaceNode
 from elementpath.sequences import xlist
@@ -590,6 +590,8 @@ def evaluate__value_comparison_operators(self: XPathToken, context: ta.ContextTy
         pass
     elif (issubclass(cls0, cls1) or issubclass(cls1, cls0)) and not issubclass(cls0, Duration):
         pass
+    elif all(isinstance(x, DateTime) for x in operands):
+        pass  # xs:dateTimeStamp against an xs:dateTime of the other XSD version
     else:
         msg = "cannot apply {} between {!r} and {!r}".format(self, *operands)
         raise self.error('XPTY0004', msg)
